@@ -365,6 +365,59 @@ def rules(rep, m):
             else:
                 r6.ok()
 
+    # R-C16-7 ------------------------------------------------------------
+    r7 = rep.rule("R-C16-7", "a real value is turned into the integer a sampler returns by rounding in a stated direction "
+                  "(floor / ceil) or is provably non-negative: a plain conversion truncates toward zero, which is floor only for "
+                  "non-negative values - for a signed range it skips the lowest value and doubles zero", floor=3)
+    ROUND = {"floor", "ceil", "round", "trunc", "lround", "llround", "rint", "nearbyint", "floorf", "ceilf"}
+    for f in m.funcs.values():
+        if (m.rel(f.file) or "") not in ("src/cmb_random.c", "include/cmb_random.h"):
+            continue
+        fx = None
+        for x in walk(f.body):
+            if x["kind"] not in ("ImplicitCastExpr", "CStyleCastExpr") or x.get("castKind") != "FloatingToIntegral":
+                continue
+            fx = fx or FuncCtx(m, f)
+            opnd = fx.resolve(kids(x)[0])
+            r7.instance("%s: (%s) %s" % (f.name, x.get("type"), render(opnd)[:70]))
+            if opnd["kind"] == "CallExpr" and callee_ref(opnd) in ROUND:
+                r7.ok()
+                continue
+            asserted = [fx.canon(any_assert_condition(s_)) for s_ in walk(f.body) if any_assert_condition(s_) is not None]
+            for cd in inv.dominating_conditions(fx, f, x):
+                # what the branches leading here establish:  !(p <= 0.0)  is  p > 0.0
+                mm_ = re.fullmatch(r"!\((.+) (<=|<) (0(\.0)?)\)", cd)
+                asserted.append("(%s %s 0)" % (mm_.group(1), ">" if mm_.group(2) == "<=" else ">=") if mm_ else cd)
+
+            def nonneg(n_, depth=0):
+                n_ = fx.resolve(n_) if depth < 8 else strip(n_, casts=True)
+                k_ = n_["kind"]
+                if k_ in ("IntegerLiteral", "FloatingLiteral"):
+                    v_ = float_value(n_)
+                    return v_ is not None and v_ >= 0
+                if k_ == "CallExpr":
+                    return callee_ref(n_) in ("cmb_random", "fabs", "sqrt", "exp", "cmb_random_std_exponential", "cmb_random_exponential")
+                if k_ in ("DeclRefExpr", "MemberExpr"):
+                    t_ = n_.get("type") or ""
+                    c_ = fx.canon(n_)
+                    if "unsigned" in t_ or "uint" in t_ or "size_t" in t_:
+                        return True
+                    return any(a_ in ("(%s >= 0)" % c_, "(%s >= 0.0)" % c_, "(%s > 0)" % c_, "(%s > 0.0)" % c_) for a_ in asserted) or \
+                        any(re.fullmatch(r"\(\(%s >= 0(\.0)?\) && .*\)|\(\(%s > 0(\.0)?\) && .*\)" % (re.escape(c_), re.escape(c_)), a_) for a_ in asserted)
+                if k_ == "BinaryOperator" and n_.get("opcode") in ("+", "*", "/"):
+                    return nonneg(kids(n_)[0], depth + 1) and nonneg(kids(n_)[1], depth + 1)
+                if k_ == "ConditionalOperator":
+                    return nonneg(kids(n_)[1], depth + 1) and nonneg(kids(n_)[2], depth + 1)
+                return False
+            if nonneg(opnd):
+                r7.ok()
+            else:
+                rep.finding(r7, f.name, "conversion:truncates", "%s converts '%s' to %s by plain conversion, which rounds toward zero: "
+                            "for a negative value that is one above the floor, so the lowest value of a signed range is never "
+                            "returned and zero is returned twice as often" % (f.name, render(opnd)[:100], x.get("type")),
+                            where=m.rel(loc(x)))
+                r7.fail()
+
 
 def run(tier="quick"):
     models = common.load_models(tier)
